@@ -1217,6 +1217,41 @@ func guessedPackageNameIsAnIdentifier(r *an.Run, rule string) {
 				}
 			}
 		}
+		// an element is a major-version element ("v2") only if digits follow the v: the bare element "v" is a
+		// package name. Where the guess steps over an element (path.Dir), the test that lets it do so measures
+		// the element (a comparison of its length with 1 or 2) or parses the digits (strconv: the empty string
+		// is an error) — a loop over the characters after the v is vacuously true when there are none
+		skips, measures := false, false
+		for _, h := range helperGroup(g, 2) {
+			for _, c := range an.Calls(h) {
+				if an.IsCallTo(c, "path.Dir", "path/filepath.Dir") {
+					skips = true
+				}
+				if an.IsCallTo(c, "strconv.Atoi", "strconv.ParseInt", "strconv.ParseUint", "regexp.MatchString", "(*regexp.Regexp).MatchString") {
+					measures = true
+				}
+			}
+			for _, b := range h.Blocks {
+				for _, in := range b.Instrs {
+					cmp, ok := in.(*ssa.BinOp)
+					if !ok {
+						continue
+					}
+					for _, pair := range [][2]ssa.Value{{cmp.X, cmp.Y}, {cmp.Y, cmp.X}} {
+						lc, isLen := pair[0].(*ssa.Call)
+						k, isc := an.ConstInt(pair[1])
+						if isLen && an.IsCallTo(lc, "builtin:len") && isc && (k == 1 || k == 2) {
+							if bt, ok := lc.Call.Args[0].Type().Underlying().(*types.Basic); ok && bt.Info()&types.IsString != 0 {
+								measures = true
+							}
+						}
+					}
+				}
+			}
+		}
+		if skips {
+			r.Check(measures, short(g)+"|version-element-has-digits", g.Pos(), "%s steps over a major-version element only when digits follow the v (it measures the element or parses the digits): the bare element \"v\" (example.com/geom/v) is the package name, and guessing \"geom\" deletes an import of v that is still used", short(g))
+		}
 		r.Check(good, short(g)+"|cut-at-non-identifier", g.Pos(), "%s cuts the path element where it stops being an identifier (\"yaml.v3\" → \"yaml\"): what it returns can be the name the file uses", short(g))
 	}
 	r.Count("places where a package name is guessed from an import path", n)
